@@ -40,6 +40,8 @@ class AnyVals:
             return SAny(z3.If(v.isnone, A.none, self.to_any(v.inner).t))
         if isinstance(v, SRef):
             return SAny(A.o(v.t))
+        if isinstance(v, (SAbs, STuple, SList, SSet)):
+            return SAny(A.o(fresh_int('obj')))
         raise Unsupported('to_any %r' % (v,))
 
     def any_is_num(self, a):
@@ -110,8 +112,8 @@ class AnyVals:
     # ------------------------------------------------------------------ dicts
     def dict_arrays(self, st):
         if ('dict', 'has') not in st.heap:
-            st.heap[('dict', 'has')] = z3.Array(fresh_name('D_has'), I, z3.ArraySort(AnyT, B))
-            st.heap[('dict', 'val')] = z3.Array(fresh_name('D_val'), I, z3.ArraySort(AnyT, AnyT))
+            st.heap[('dict', 'has')] = z3.Array('D0_has', I, z3.ArraySort(AnyT, B))
+            st.heap[('dict', 'val')] = z3.Array('D0_val', I, z3.ArraySort(AnyT, AnyT))
         return st.heap[('dict', 'has')], st.heap[('dict', 'val')]
 
     def new_dict(self, st, symbolic=False, base='d'):
